@@ -25,3 +25,5 @@ pub mod parsers;
 pub mod renderers;
 pub mod rules;
 pub mod testcase;
+#[cfg(feature = "verif")]
+pub mod verif;
